@@ -80,6 +80,86 @@ example : d16 (2 + 1) 0 100000000 = lim16Hi ∧ d16 2 0 100000000 = 32767 := by 
 /-- the amplification values the API accepts are inside the range of the theorems above -/
 theorem C13_amp_api_range : ∀ v, ampMax = some v → v ≤ (downmixShift : Int) := amp_range_safe
 
+/-! ## the downmix is monotone, saturating and sign-preserving -/
+
+/-- **C13_downmix_monotone**: in every output format and at every amplification a larger
+accumulator value never gives a smaller output sample — signed samples compared as integers,
+unsigned samples compared as the unsigned words the consumer reads.  (The clamp can merge values,
+it can never reorder them: no wrap-around of loud passages.) -/
+theorem C13_downmix_monotone (amp : Nat) (x y : Int) (h : x ≤ y) :
+    d16 amp 0 x ≤ d16 amp 0 y ∧ d8 amp 0 x ≤ d8 amp 0 y ∧
+    word 16 (d16 amp 0x8000 x) ≤ word 16 (d16 amp 0x8000 y) ∧ word 8 (d8 amp 0x80 x) ≤ word 8 (d8 amp 0x80 y) := by
+  have h16 := d16_mono amp x y h
+  have h8 := d8_mono amp x y h
+  refine ⟨h16, h8, ?_, ?_⟩
+  · have a := word16_unsigned amp x
+    have b := word16_unsigned amp y
+    omega
+  · have a := word8_unsigned amp x
+    have b := word8_unsigned amp y
+    omega
+
+/-- **C13_downmix_saturating**: the output is the shifted accumulator clamped to the sample
+range — `max LO (min HI (x >> shift))` — so it always lies in the range, equals the shifted value
+exactly while that fits, and sticks at the limit for every accumulator value beyond
+`(HI + 1) · 2^shift` resp. below `LO · 2^shift` (all 2^32 accumulator values and beyond). -/
+theorem C13_downmix_saturating (amp : Nat) (x : Int) :
+    (d16 amp 0 x = max lim16Lo (min lim16Hi (x >>> shift16 amp)) ∧ lim16Lo ≤ d16 amp 0 x ∧ d16 amp 0 x ≤ lim16Hi ∧
+      ((lim16Hi + 1) * 2 ^ shift16 amp ≤ x → d16 amp 0 x = lim16Hi) ∧
+      (x < lim16Lo * 2 ^ shift16 amp → d16 amp 0 x = lim16Lo) ∧
+      (lim16Lo * 2 ^ shift16 amp ≤ x → x < (lim16Hi + 1) * 2 ^ shift16 amp → d16 amp 0 x = x >>> shift16 amp)) ∧
+    (d8 amp 0 x = max lim8Lo (min lim8Hi (x >>> shift8 amp)) ∧ lim8Lo ≤ d8 amp 0 x ∧ d8 amp 0 x ≤ lim8Hi ∧
+      ((lim8Hi + 1) * 2 ^ shift8 amp ≤ x → d8 amp 0 x = lim8Hi) ∧
+      (x < lim8Lo * 2 ^ shift8 amp → d8 amp 0 x = lim8Lo) ∧
+      (lim8Lo * 2 ^ shift8 amp ≤ x → x < (lim8Hi + 1) * 2 ^ shift8 amp → d8 amp 0 x = x >>> shift8 amp)) := by
+  have e16 := clip16_eq (pre16 amp x)
+  have e8 := clip8_eq (pre8 amp x)
+  have a1 := shr_ge_iff x (shift16 amp) (lim16Hi + 1)
+  have a2 := shr_lt_iff x (shift16 amp) lim16Lo
+  have a3 := shr_ge_iff x (shift16 amp) lim16Lo
+  have b1 := shr_ge_iff x (shift8 amp) (lim8Hi + 1)
+  have b2 := shr_lt_iff x (shift8 amp) lim8Lo
+  have b3 := shr_ge_iff x (shift8 amp) lim8Lo
+  rw [d16_zero, d8_zero]
+  simp only [pre16, pre8] at *
+  have l1 : lim16Hi = 32767 := rfl
+  have l2 : lim16Lo = -32768 := rfl
+  have l3 : lim8Hi = 127 := rfl
+  have l4 : lim8Lo = -128 := rfl
+  generalize x >>> shift16 amp = p at *
+  generalize x >>> shift8 amp = q at *
+  generalize (2 : Int) ^ shift16 amp = P at *
+  generalize (2 : Int) ^ shift8 amp = Q at *
+  refine ⟨⟨e16, ?_, ?_, ?_, ?_, ?_⟩, ⟨e8, ?_, ?_, ?_, ?_, ?_⟩⟩ <;> omega
+
+example : d16 0 0 (32768 * 4096) = lim16Hi ∧ d16 0 0 (32768 * 4096 - 1) = 32767 ∧ d16 0 0 (32767 * 4096 - 1) = 32766
+    ∧ d16 0 0 (-32768 * 4096 - 1) = lim16Lo ∧ d16 3 0 2147483647 = lim16Hi ∧ d16 3 0 (-2147483648) = lim16Lo := by decide
+
+/-- **C13_downmix_sign**: the output has the sign of the accumulator (floor shift: every negative
+accumulator gives a negative sample, zero gives zero), in both widths at every amplification. -/
+theorem C13_downmix_sign (amp : Nat) (x : Int) :
+    (d16 amp 0 x < 0 ↔ x < 0) ∧ (d8 amp 0 x < 0 ↔ x < 0) ∧ d16 amp 0 0 = 0 ∧ d8 amp 0 0 = 0 := by
+  rw [d16_zero, d8_zero]
+  refine ⟨?_, ?_, ?_, ?_⟩
+  · rw [clip16_neg_iff]; exact shr_neg_iff x _
+  · rw [clip8_neg_iff]; exact shr_neg_iff x _
+  · rw [d16_zero]; simp [pre16, clip16, lim16Hi, lim16Lo]
+  · rw [d8_zero]; simp [pre8, clip8, lim8Hi, lim8Lo]
+
+/-- **C13_amp_monotone**: one amplification step up never brings a sample closer to zero:
+non-negative accumulators give a sample at least as large, negative ones at most as large. -/
+theorem C13_amp_monotone (amp : Nat) (h : amp + 1 ≤ downmixShift) (x : Int) :
+    (0 ≤ x → d16 amp 0 x ≤ d16 (amp + 1) 0 x ∧ d8 amp 0 x ≤ d8 (amp + 1) 0 x) ∧
+    (x ≤ 0 → d16 (amp + 1) 0 x ≤ d16 amp 0 x ∧ d8 (amp + 1) 0 x ≤ d8 amp 0 x) := by
+  simp only [d16_zero, d8_zero, pre16_succ amp h x, pre8_succ amp (by omega) x]
+  constructor
+  · intro hx
+    exact ⟨clip16_mono _ _ (shr_mono _ _ _ (by omega)), clip8_mono _ _ (shr_mono _ _ _ (by omega))⟩
+  · intro hx
+    exact ⟨clip16_mono _ _ (shr_mono _ _ _ (by omega)), clip8_mono _ _ (shr_mono _ _ _ (by omega))⟩
+
+example : d16 0 0 5000000 = 1220 ∧ d16 1 0 5000000 = 2441 ∧ d16 0 0 (-5000000) = -1221 ∧ d16 1 0 (-5000000) = -2442 := by decide
+
 /-! ## buffer layout: the format flags only select the layout -/
 
 /-- **C13_buffer_layout**: for every format and every tick size that
